@@ -11,7 +11,14 @@ import (
 // resolve reduce/reduce conflicts: several alternatives start with nonterminals
 // deriving the same string, continue with a common middle part and differ only
 // after it.
-func LalrK(r *rand.Rand) *PGrammar {
+func LalrK(r *rand.Rand) *PGrammar { return lalrK(r, false) }
+
+// LalrKTwin is LalrK with the second conflict (same middle tokens behind another common prefix,
+// other tails) always present: two parser states whose first-level lookahead rows look alike and
+// whose lookahead automata differ.
+func LalrKTwin(r *rand.Rand) *PGrammar { return lalrK(r, true) }
+
+func lalrK(r *rand.Rand, twin bool) *PGrammar {
 	k := 2 + r.Intn(7)
 	g := &cfg.Grammar{}
 	term := func() cfg.Sym {
@@ -44,6 +51,9 @@ func LalrK(r *rand.Rand) *PGrammar {
 	midLen := r.Intn(k)
 	if midLen > 4 {
 		midLen = r.Intn(5)
+	}
+	if twin && midLen == 0 {
+		midLen = 1
 	}
 	type midEl struct {
 		kind  int // 0 terminal, 1 nonterminal deriving one terminal, 2 nullable nonterminal, 3 nonterminal deriving two terminals, 4 nonterminal 't Opt' with Opt: t2 | %empty (the next token lies behind a nullable suffix)
@@ -134,7 +144,7 @@ func LalrK(r *rand.Rand) *PGrammar {
 		}
 		rule(s, rhs...)
 	}
-	if r.Intn(3) == 0 {
+	if twin || r.Intn(3) == 0 {
 		// a second, independent conflict with the same middle tokens but another common prefix and
 		// other tails: its lookahead automaton shares inner nodes with the first one
 		var pref2 []cfg.Sym
